@@ -24,6 +24,7 @@ RULE = ("Generated: base portfolio P (contracts, takes, transports, storages, mu
         "the element changes the optimum when it is moved inside the horizon (checked by moving it), or for (b)/(c) an "
         "asset with a window cutting the horizon has non-zero dispatch / the clipped take row binds. "
         "Distinct = distinct spec hash.")
+RULE += (' Round 5: plants and CHP with minimum-load costs with own windows in the base portfolio; a set-up error that disappears when all asset windows are removed is a violation; a scaled asset carries its window alone in half of the cases.')
 ASSUMPTIONS = ["windows, orders and take periods lie on step boundaries",
                "V compared with tolerance 4e-5*(1+|V|) (two interior-point solves)"]
 
